@@ -6,7 +6,8 @@ export CARGO_NET_OFFLINE=true
 mkdir -p build evidence replays
 # T-tied models are regenerated from /repo before the Coq build
 python3 translators/rs_kernel2coq.py /repo/datafusion/physical-plan/src/repartition/mod.rs coq/Gen/StrengthReduced.v || true
-(cd coq && coq_makefile -f _CoqProject -o Makefile >/dev/null && timeout 3000 make -j16 2>&1 | tail -5)
+python3 -c "import sys; sys.path.insert(0,'lib'); import vlib; vlib.coq_makefile()"
+(cd coq && timeout 3000 make -j16 2>&1 | tail -5)
 rm -f harness/Cargo.lock
 cp /repo/Cargo.lock harness/Cargo.lock
 (cd harness && timeout 7000 cargo build --offline --workspace 2>&1 | tail -3)
